@@ -117,7 +117,18 @@ type parent struct {
 	bins        map[string]string
 }
 
+// outDir is where binaries, work files, replays and evidence go: Root(),
+// unless VERIF_OUT redirects them (self-validation runs against scratch copies
+// of the repository must not overwrite the real evidence).
+func outDir(root string) string {
+	if o := os.Getenv("VERIF_OUT"); o != "" {
+		return o
+	}
+	return root
+}
+
 func binPath(root, build string) string {
+	root = outDir(root)
 	switch build {
 	case "race":
 		return filepath.Join(root, "bin", "vcheck-race")
@@ -173,7 +184,7 @@ func ParentMain(prop, tier string, seed int64, only string) int {
 	p := &parent{chk: chk, tier: tier, seed: seed, root: root,
 		observed: map[string]int64{}, max: map[string]int64{}, hashes: map[uint64]struct{}{},
 		suites: map[string]*suiteStats{}, bins: map[string]string{}}
-	p.work = filepath.Join(root, "work", fmt.Sprintf("%s-%s-%d", prop, tier, os.Getpid()))
+	p.work = filepath.Join(outDir(root), "work", fmt.Sprintf("%s-%s-%d", prop, tier, os.Getpid()))
 	os.RemoveAll(p.work)
 	if err := os.MkdirAll(p.work, 0o755); err != nil {
 		fmt.Fprintln(os.Stderr, err)
@@ -312,8 +323,8 @@ func ParentMain(prop, tier string, seed int64, only string) int {
 		nprinted++
 		b, _ := json.MarshalIndent(v, "", " ")
 		sum := sha256.Sum256(b)
-		os.MkdirAll(filepath.Join(root, "replays"), 0o755)
-		path := filepath.Join(root, "replays", fmt.Sprintf("%s-%x.json", prop, sum[:6]))
+		os.MkdirAll(filepath.Join(outDir(root), "replays"), 0o755)
+		path := filepath.Join(outDir(root), "replays", fmt.Sprintf("%s-%x.json", prop, sum[:6]))
 		os.WriteFile(path, b, 0o644)
 		fmt.Printf("VIOLATION property=%s replay=%s\n", prop, path)
 		fmt.Printf("  suite=%s idx=%d class=%s sig=%s\n  %s\n", v.Suite, v.Idx, v.Class, v.Sig, firstLines(v.Detail, 6))
@@ -626,8 +637,8 @@ func (p *parent) writeEvidence(start time.Time, nviol, nsig int, matched []strin
 		"violations":  nviol,
 	}
 	b, _ := json.MarshalIndent(ev, "", " ")
-	os.MkdirAll(filepath.Join(p.root, "evidence"), 0o755)
-	os.WriteFile(filepath.Join(p.root, "evidence", p.chk.ID+".json"), append(b, '\n'), 0o644)
+	os.MkdirAll(filepath.Join(outDir(p.root), "evidence"), 0o755)
+	os.WriteFile(filepath.Join(outDir(p.root), "evidence", p.chk.ID+".json"), append(b, '\n'), 0o644)
 }
 
 // ReplayMain re-executes the case of a replay file.
